@@ -25,6 +25,13 @@ def u_purity(ctx):
     for path, modname in files:
         funcs, mod_problems, tree = purity.analyse_module(path, modname, ALLOWED)
         mod_problems = [p for p in mod_problems if not (modname == "py_ecc" and "setrecursionlimit" in p)]
+        for st in tree.body:
+            # interpreter-wide setters at import time are allowed in the package root only (it is always imported first)
+            if isinstance(st, ast.Expr) and isinstance(st.value, ast.Call) and isinstance(st.value.func, ast.Attribute) \
+                    and st.value.func.attr in ("setrecursionlimit", "setswitchinterval", "setprofile", "settrace", "seed", "setlocale") \
+                    and modname != "py_ecc":
+                mod_problems.append(f"line {st.lineno}: module-level call `{ast.unparse(st.value.func)}(...)` changes interpreter-wide state "
+                                    "when this sub-module is imported: results elsewhere depend on import history")
         ctx.record(f"{modname}/module.constants-and-determinism", "proved" if not mod_problems else "refuted", "frame",
                    detail="; ".join(mod_problems)[:1500] or "module-level names bound once, no import-time mutation, no non-deterministic import",
                    kind="frame")
@@ -67,3 +74,11 @@ def u_purity(ctx):
 
 
 UNITS["purity.frames"] = Unit("purity.frames", u_purity, [], kind="frame", props=("C20",))
+
+
+def u_purity_closed(ctx):
+    from contracts.closed import eval_facts
+    eval_facts(ctx, ["purity.import-order-state"])
+
+
+UNITS["purity.closed"] = Unit("purity.closed", u_purity_closed, [], kind="closed", props=("C20", "C07", "C18"))
